@@ -10,6 +10,7 @@ import (
 	"fmt"
 	"math"
 	"reflect"
+	"regexp"
 	"sort"
 	"strings"
 	"time"
@@ -32,6 +33,8 @@ func (r XCond) String() string { return "<<custom condition stringer>>" }
 type ACond stackage.Condition
 type WCond stackage.Condition
 func (r WCond) String() string { return stackage.Condition(r).String() }
+
+var randomIDShape = regexp.MustCompile(`^[A-Z0-9]{24}$`)
 
 var errPolicy = errors.New("policy: rejected")
 var errUser = errors.New("user error")
@@ -110,6 +113,61 @@ type AState struct {
 	EPol   bool       `json:"epol"`
 	UPol   bool       `json:"upol"`
 	MPol   bool       `json:"mpol"`
+	Lvl    []int      `json:"lvl"`
+}
+
+var lvlNames = []string{"CALLS", "POLICY", "STATE", "DEBUG", "ERROR", "TRACE", "USER1", "USER2", "USER3", "USER4", "USER5", "USER6", "USER7", "USER8", "USER9", "USER10"}
+
+// lvlArgs turns the spec's log-level arguments into Go values: a name (in
+// varying case), a LogLevel constant or a raw integer.
+func lvlArgs(c Call, n *int) []any {
+	var out []any
+	l, _ := c["args"].([]any)
+	for _, a := range l {
+		m, _ := a.(map[string]any)
+		form, _ := m["form"].(string)
+		bits := 0
+		if bl, ok := m["bits"].([]any); ok {
+			for _, b := range bl {
+				if f, ok := b.(float64); ok {
+					bits |= 1 << (int(f) - 1)
+				}
+			}
+		}
+		none, _ := m["none"].(bool)
+		all, _ := m["all"].(bool)
+		*n++
+		switch {
+		case none && form == "name":
+			out = append(out, []string{"none", "NONE", "None"}[*n%3])
+		case none && form == "int":
+			out = append(out, 0)
+		case none:
+			out = append(out, stackage.NoLogLevels)
+		case all && form == "name":
+			out = append(out, []string{"all", "ALL"}[*n%2])
+		case all && form == "int":
+			out = append(out, 65535)
+		case all:
+			out = append(out, stackage.AllLogLevels)
+		case form == "name":
+			name := ""
+			for i := 0; i < 16; i++ {
+				if bits == 1<<i {
+					name = lvlNames[i]
+				}
+			}
+			if *n%2 == 0 {
+				name = strings.ToLower(name)
+			}
+			out = append(out, name)
+		case form == "const":
+			out = append(out, stackage.LogLevel(bits))
+		default:
+			out = append(out, bits)
+		}
+	}
+	return out
 }
 
 var errClosure = errors.New("closure verdict")
@@ -175,6 +233,9 @@ func (a AState) Canon() AState {
 	if b.VPol == "" {
 		b.VPol = "none"
 	}
+	if b.Lvl == nil {
+		b.Lvl = []int{}
+	}
 	return b
 }
 
@@ -214,6 +275,7 @@ func (a AState) ApplyDelta(d json.RawMessage) (AState, error) {
 // ---- the real object --------------------------------------------------
 
 type Obj struct {
+	n   int  // counter used to vary argument spellings
 	alt bool // alternate between the "no argument" and "nil" ways of removing a closure
 	S   stackage.Stack
 	acc map[string]bool
@@ -317,7 +379,11 @@ func Build(a AState) *Obj {
 	if a.Mtx {
 		o.S.SetMutex()
 	}
-	if a.ID != "" {
+	if a.ID == "<random24>" {
+		o.S.SetID("_random")
+	} else if a.ID == "<addr>" {
+		o.S.SetID("_addr")
+	} else if a.ID != "" {
 		o.S.SetID(a.ID)
 	}
 	if a.Cat != "" {
@@ -334,6 +400,17 @@ func Build(a AState) *Obj {
 	}
 	if a.HasPol {
 		o.installPolicy(a.Acc)
+	}
+	if len(a.Lvl) > 0 {
+		bits := 0
+		for _, b := range a.Lvl {
+			bits |= 1 << (b - 1)
+		}
+		if bits == 65535 {
+			o.S.SetLogLevel(stackage.AllLogLevels)
+		} else {
+			o.S.SetLogLevel(stackage.LogLevel(bits))
+		}
 	}
 	if a.VPol != "" && a.VPol != "none" {
 		setStackVPol(o.S, a.VPol)
@@ -518,6 +595,10 @@ func applyInner(o, d *Obj, c Call) (ret []string) {
 		} else {
 			ret = []string{"nil"}
 		}
+	case "SetLogLevel":
+		o.S.SetLogLevel(lvlArgs(c, &o.n)...)
+	case "UnsetLogLevel":
+		o.S.UnsetLogLevel(lvlArgs(c, &o.n)...)
 	case "SetValidityPolicy":
 		setStackVPol(o.S, c.Str("mode"))
 	case "SetPresentationPolicy", "SetEqualityPolicy", "SetUnmarshaler", "SetMarshaler":
@@ -636,6 +717,7 @@ type Obs struct {
 	StrSrc  string     `json:"strsrc"`
 	EqSrc   string     `json:"eqsrc"`
 	UmSrc   string     `json:"umsrc"`
+	LogLvls string     `json:"loglevels"`
 }
 
 func safeS(f func() string) (s string) {
@@ -700,7 +782,16 @@ func Observe(s stackage.Stack) Obs {
 		return "none"
 	})
 	o.CanMtx = safeS(func() string { return b2s(s.CanMutex()) })
-	o.ID = safeS(s.ID)
+	o.ID = safeS(func() string {
+		id := s.ID()
+		if randomIDShape.MatchString(id) {
+			return "<random24>"
+		}
+		if live && id != "" && id == s.Addr() {
+			return "<addr>"
+		}
+		return id
+	})
 	o.Cat = safeS(s.Category)
 	o.Delim = safeS(s.Delimiter)
 	o.IsEnc = safeS(func() string { return b2s(s.IsEncap()) })
@@ -719,6 +810,7 @@ func Observe(s stackage.Stack) Obs {
 		}
 		return "builtin"
 	})
+	o.LogLvls = safeS(s.LogLevels)
 	o.EqSrc, o.UmSrc = "none", "none"
 	if live {
 		o.EqSrc = safeS(func() string {
